@@ -60,6 +60,10 @@ class FactEngine(object):
         self._init_all = {i: [c for c in kids(d) if not c.get('kind', '').endswith('Attr')][-1]
                           for i, d in decls.items() if i not in written and d.get('kind') == 'VarDecl' and
                           [c for c in kids(d) if not c.get('kind', '').endswith('Attr')]}
+        # locals that are written again later: their initialiser still stands for them at a test reached before any write
+        self._init_later_written = {i: [c for c in kids(d) if not c.get('kind', '').endswith('Attr')][-1]
+                                    for i, d in decls.items() if i in written and d.get('kind') == 'VarDecl' and 'init' in d and
+                                    [c for c in kids(d) if not c.get('kind', '').endswith('Attr')]}
         self._decl_node = decls
         const_method = bool(re.search(r'\)\s*const\b', qtype(self.fn)))
 
@@ -278,11 +282,15 @@ class FactEngine(object):
             if init is not None and cur is not None and peel(init) is not None and peel(init).get('kind') == 'CallExpr':
                 if self._unwritten_between(self._decl_node[i], cur, peel(init)):
                     return peel(init)
+            init = getattr(self, '_init_later_written', {}).get(i)
+            if init is not None and cur is not None and peel(init) is not None and peel(init).get('kind') == 'CallExpr':
+                if self._unwritten_between(self._decl_node[i], cur, peel(init), also=(i,)):
+                    return peel(init)
         return None
 
-    def _unwritten_between(self, decl, node, call):
-        """No variable the call's arguments read is written on a path from the declaration to `node`."""
-        roots = set()
+    def _unwritten_between(self, decl, node, call, also=()):
+        """No variable the call's arguments read (nor any of `also`) is written on a path from the declaration to `node`."""
+        roots = set(also)
         for a in call_args(call):
             for y in walk(a):
                 if y.get('kind') == 'DeclRefExpr' and (y.get('referencedDecl') or {}).get('kind') in ('VarDecl', 'ParmVarDecl'):
